@@ -64,6 +64,27 @@ class Engine(ExprMixin, QueryMixin, DMLMixin, RoutineMixin):
         self.stmt_counts = {}
         self.routine_sources = {}
 
+    def reset(self, rand=None, clock=None):
+        """empty every table and forget run state, keeping the catalog and everything compiled."""
+        for t in self.tables.values():
+            t.rows = {}
+            t.next_rowid = 1
+            t.auto_next = 1
+            t.pk_index = {}
+            t.uniq_indexes = [dict() for _ in t.uniques]
+            t.sec_indexes = {}
+            t.version = 0
+        for r in list(self.procedures.values()) + list(self.functions.values()) + list(self.triggers.values()):
+            r.calls = 0
+        self.stmt_seq = 0
+        self._rand = rand or random.Random(0).random
+        self._clock = clock or (lambda: 1_700_000_000.0)
+        self.commit_hooks = []
+        self.change_count = 0
+        self.n_commits = 0
+        self.n_rollbacks = 0
+        self.stmt_counts = {}
+
     # -- environment ------------------------------------------------------------------------------
     def rand(self):
         return self._rand()
